@@ -498,8 +498,6 @@ def classify(case: dict, res: dict) -> dict:
             kind = "self-type"
         elif exc == "TypeError" and "doesn't apply to a 'CC' object" in msg and last.get("slots_hit"):
             kind = "slots-descriptor-default"
-        elif exc == "UnserializableField" and "_default.<locals>.CC" in msg and last.get("tp_field_default"):
-            kind = "default-ignores-field-strategy"
         elif exc == "NameError" and last.get("nt_fwd_default"):
             kind = "default-over-string-annotated-namedtuple"
         elif exc == "ValueError" and msg.startswith("mutable default") and last.get("nt_mutable"):
@@ -510,9 +508,6 @@ def classify(case: dict, res: dict) -> dict:
             kind = "field-strategy-unannotated"
         elif exc in ("RecursionError", "CaseTimeout") and last.get("field_override_container") and not last.get("cyclic"):
             kind = "field-override-container"
-    elif res.get("clause") == "default-value" and (res.get("detail") or {}).get("field_override"):
-        # _default() ignores the field-level serialize / serialization_strategy options (same root cause as the crash)
-        kind = "default-ignores-field-strategy"
     elif res.get("clause") == "metaschema" and "validator crashed" in res.get("what", "") and res.get("detail", {}).get("depth", 0) >= 150 \
             and any(f.get("field_override_container") for f in upto):
         # the library swallowed its own RecursionError (except Exception -> Any) and returned a ~1000-deep document
